@@ -491,10 +491,29 @@ def filler(rnd, words, style, base):
     return out
 
 
+def pc_target(naming, off):
+    """pc + off written in several ways: a chain of + and - associates to the left."""
+    pc = sym("pc")
+    if naming == "pcsub":       # pc - 3 - b
+        return binop("-", binop("-", pc, lit(3)), lit(-off - 3))
+    if naming == "pcmix":       # pc - 5 + b
+        return binop("+", binop("-", pc, lit(5)), lit(off + 5))
+    if naming == "pcpar":       # pc - (a - b)
+        return binop("-", pc, par(binop("-", lit(9), lit(off + 9))))
+    return binop("+", pc, lit(off)) if off >= 0 else binop("-", pc, lit(-off))
+
+
 def branch_case(rnd, kind, d, style, naming, prefix):
     mn, s = kind
     pre = [instr("nop") for _ in range(prefix)]
     ops_pre = [E(s)] if s is not None else []
+    if naming.startswith("pc") and naming != "pc":
+        tgt = E(pc_target(naming, 1 + d))
+        if d >= 0:
+            prog = pre + [instr(mn, *(ops_pre + [tgt]))] + filler(rnd, d, style, prefix + 1) + [label("target"), instr("ret")]
+        else:
+            prog = pre + [label("target")] + filler(rnd, -d - 1, style, prefix) + [instr(mn, *(ops_pre + [tgt])), instr("ret")]
+        return Case(prog, tag="%s d=%s" % ("br" if mn.startswith("br") else "rj", "in" if (-64 <= d <= 63 if mn.startswith("br") else -2048 <= d <= 2047) else "out"))
     if d >= 0:      # forward: branch at A=prefix, target at A+1+d
         tgt = E(sym("target")) if naming == "label" else E(binop("+", sym("pc"), lit(1 + d)))
         prog = pre + [instr(mn, *(ops_pre + [tgt]))] + filler(rnd, d, style, prefix + 1)
@@ -517,7 +536,7 @@ def check_c03(prop, tier, seed, devices):
         for di, d in enumerate(br_bound):
             sts = styles if tier == "thorough" else [styles[(ki + di) % len(styles)], styles[(ki + 2 * di + 3) % len(styles)]]
             for st in sts:
-                for naming in ("label", "pc"):
+                for naming in ("label", "pc", ("pcsub", "pcmix", "pcpar")[(ki + di) % 3]):
                     cases.append(branch_case(rnd, kind, d, st, naming, prefix=(ki + di) % 5))
     # every distance in -70..70, kinds rotated (thorough: all kinds)
     for d in range(-70, 71):
@@ -761,16 +780,7 @@ def check_c10(prop, tier, seed, devices):
         base = sym_program(rnd, rnd.randrange(3, 11))
 
         def mk(p, tag):
-            # a .def of an alias that is still bound (which a deletion of the .undef in between creates) is a shape the
-            # property leaves open: not generated
-            bound = set()
-            for l in p:
-                if l["k"] == "def":
-                    if l["n"] in bound:
-                        return
-                    bound.add(l["n"])
-                elif l["k"] == "undef":
-                    bound.discard(l["n"])
+            # (a .def of an alias that is still bound -- which a deletion of the .undef in between creates -- binds it anew)
             p = copy.deepcopy(p)
             spells = [Spell(case=rnd.choice(CASES3)) for _ in p]
             cases.append(Case(p, tag=tag, spells=spells))
@@ -803,6 +813,9 @@ def check_c10(prop, tier, seed, devices):
         [defr("tmp", 16), seg("eeprom"), undef("tmp"), defr("tmp", 18), seg("code"), instr("inc", E(sym("tmp")))],
         [seg("eeprom"), setv("yv", 7), data(1, E(sym("yv"))), seg("data"), setv("yv", 9), seg("code"), data(2, E(sym("yv")))],
     ]
+    hand += [[defr("tmp", 16), defr("tmp", 17), instr("ldi", E(sym("tmp")), E(1)), undef("tmp"), instr("nop")],
+             [defr("tmp", 16), instr("ldi", E(sym("tmp")), E(1)), defr("tmp", 3), instr("mov", E(sym("tmp")), R(1)), instr("ldi", E(sym("tmp")), E(1))],
+             [defr("tmp", 16), defr("tmp", 16), undef("tmp"), instr("inc", E(sym("tmp")))]]
     # chains of definitions: a name defined through others, used several times in one expression, together with the names it is built on
     chain = [equ("ca", binop("+", lit(1), lit(1))), equ("cb", binop("*", sym("ca"), lit(2))), equ("cc", binop("+", lit(10), sym("cb"))),
              equ("cd", binop("-", sym("cc"), sym("ca")))]
@@ -830,7 +843,7 @@ def check_c10(prop, tier, seed, devices):
                      rule="random programs of 3-9 lines over {label def, .equ (literal / other+1), .set (literal / self+1 / equ*2 / label+3), "
                           ".def, .undef, uses in ldi/.dw/mov/add} with disjoint name pools, every line spelled in lower/upper/mixed case; "
                           "plus every single-line deletion and every duplication whose outcome the property fixes; plus hand-shaped corners",
-                     assumptions=["cross-kind name clashes, .equ redefinition, .def of a bound alias are not generated (property silent)",
+                     assumptions=["cross-kind name clashes and .equ redefinition are not generated (property silent); a .def of a bound alias binds it anew",
                                   ".equ bodies refer only to literals, other .equ names and labels (eager vs lazy evaluation is not specified)"])
 
 
@@ -899,7 +912,7 @@ def cond_structures(n, depth):
     return block(n, depth)
 
 
-IF_FORMS = ["if0", "if1", "ifk1", "ifk2", "ifdef", "ifndef", "ifneg", "ifbig", "ifdiff", "ifdiv0", "ifnosym"]
+IF_FORMS = ["if0", "if1", "ifk1", "ifk2", "ifdef", "ifndef", "ifneg", "ifbig", "ifdiff", "ifdiv0", "ifnosym", "ifbadarg"]
 STMTS = ["mark", "msg", "garbage", "define", "mark", "labeluse"]
 
 
@@ -944,12 +957,16 @@ def cond_program(struct, choice):
                 prog.append(line("if", e=binop("/", lit(1), binop("-", sym("kk"), lit(1)))))
             elif f == "ifnosym":
                 prog.append(line("if", e=binop("+", sym("nosuchsym"), lit(1))))
+            elif f == "ifbadarg":                                               # a line no grammar takes ('.if @0' outside a macro): counted all the same
+                prog.append(line("if", e=binop("==", arg(0), lit(1))))
             else:
                 prog.append(line(f, n="FLAG"))
         elif s[0] == "elif":
+            # (an .elif whose line no grammar takes is not generated: met while a branch is assembled the line is read as a
+            #  whole -- whether that is an error is not settled by the property; .if forms of that kind are generated)
             f = choice(i, ["0", "1", "k1", "k2", "neg", "div0", "nosym"])
             prog.append(line("elif", e=lit(int(f)) if f in "01" else un("~", lit(0)) if f == "neg" else binop("%", lit(7), lit(0)) if f == "div0"
-                             else sym("nosuchsym") if f == "nosym" else binop("==", sym("kk"), lit(int(f[-1])))))
+                             else sym("nosuchsym") if f == "nosym" else arg(1) if f == "badarg" else binop("==", sym("kk"), lit(int(f[-1])))))
     return prog
 
 
@@ -1025,6 +1042,14 @@ def check_c08(prop, tier, seed, devices):
                                                         data(1, E(0x22)), line("else", pfx=pfx), data(1, E(0x33)), line("endif", pfx=pfx)] + [line("endm")] + \
                            [call("sel", E(1 + (k + ncalls) % 3)) for k in range(ncalls)]
                     cases.append(Case(prog, tag="macro-cond"))
+    # a macro definition inside a branch that is not assembled: its lines are passed over like any others, the conditional
+    # directives among them count, whatever follows the directive word
+    for outer in (0, 1):
+        for inner_else in (False, True):
+            body = [line("if", e=binop(">", arg(0), lit(2))), instr("ldi", R(16), E(1))] + ([line("else"), instr("ldi", R(16), E(2))] if inner_else else []) + [line("endif")]
+            prog = [line("if", e=lit(outer)), line("macro", n="sel")] + copy.deepcopy(body) + [line("endm"), call("sel", E(3)), line("else"), instr("ldi", R(17), E(7)),
+                                                                                                 line("endif"), instr("nop")]
+            cases.append(Case(prog, tag="macro-def-in-branch"))
     # de-duplicate
     seen, uniq = set(), []
     for c in cases:
@@ -1062,6 +1087,10 @@ def fault_lines():
         ("syntax", [line("garbage", text="ldi r16,, 1")]),
         ("syntax", [line("garbage", text="%%% what")]),
         ("syntax", [line("garbage", text='.db "unterminated')]),
+        ("syntax", [line("garbage", text=".dw 1 2")]),
+        ("syntax", [line("garbage", text=".db 5 'a'")]),
+        ("syntax", [line("garbage", text=".org 4 5")]),
+        ("syntax", [line("garbage", text="ldi r16 1")]),
         ("unknown-mnemonic", [call("frobnicate", R(1), R(2))]),
         ("wrong-kind", [instr("ldi", R(16), R(2))]),
         ("wrong-kind", [instr("mov", R(1), E(5))]),
@@ -1234,6 +1263,8 @@ def check_c12(prop, tier, seed, devices):
     cases.append(Case([line("device", n="ATmega8"), line("device", n="ATmega16"), instr("nop")], tag="second-device"))
     cases.append(Case([line("device", n="ATmega8"), line("device", n="ATmega8"), instr("nop")], tag="second-device"))
     cases.append(Case([instr("nop"), line("device", n="ATmega8"), instr("nop")], tag="device-after-code"))
+    for text in ('.device "ATtiny13"', ".device 42", ".device ATmega48+1", ".device ATmega48, ATmega88", ".device ATmega48 ATmega88", ".device", ".device (ATmega8)"):
+        cases.append(Case([line("garbage", text=text), org(0x3000), instr("nop")], tag="device-malformed", mat=False))
     for name in sorted(devices):
         cases.append(Case([line("device", n=name), instr("nop"), seg("data"), byte(0)], tag="sizes"))
         d = devices[name]
@@ -1364,6 +1395,10 @@ def macro_bodies():
     out.append(("oncearg", "r", [line("ifndef", n="DONE_ARG"), line("define", n="DONE_ARG"), instr("inc", ARG(0)), line("else"),
                                  instr("dec", ARG(0)), line("endif")]))
     out.append(("counted", "", [instr("nop"), data(2, E(sym("pc")))]))
+    # bodies for calls written in the data / EEPROM segment
+    out.append(("dvar", "e", [byte(arg(0)), byte(1)]))
+    out.append(("dvars", "ee", [call("dvar", ARG(0)), call("dvar", ARG(1))]))
+    out.append(("evar", "e", [data(1, ARG(0), E(binop("+", arg(0), lit(1))))]))
     return out
 
 
@@ -1452,7 +1487,14 @@ def check_c09(prop, tier, seed, devices):
                 head += [line("define", n="DeBug")] if rep % 2 == 0 else [line("define", n="RELEASE")]
             if name in ("once", "oncearg", "counted"):
                 calls = [copy.deepcopy(c) for c in (calls * 3)[:2 + rep % 3]]
-            if placement == "after-code-org":
+            if name in ("dvar", "dvars", "evar"):
+                segname = "eeprom" if name == "evar" else "data"
+                first = byte(1, lab="s0") if segname == "data" else data(1, E(0x5a), lab="s0")
+                last = byte(2, lab="s1") if segname == "data" else data(1, E(0xa5), lab="s1")
+                body_defs = defs if placement != "before-def" else []
+                prog = head + body_defs + [instr("nop"), seg(segname), first] + calls + [last, seg("code"), data(2, E(sym("s0")), E(sym("s1"))), instr("ret")] + \
+                    (defs if placement == "before-def" else [])
+            elif placement == "after-code-org":
                 prog = head + defs + [org(0x100), instr("nop")] + calls + [instr("ret")]
             elif placement == "after-def":
                 prog = head + defs + [instr("nop")] + calls + [instr("ret")]
